@@ -418,8 +418,8 @@ def fam_conv(rng, n, tier, mode="exact", grads=False):
         cases.append(Case(conv_case(rng, [], 1, 2, 2, 1, 3, 1, 1, 1, mode), ("cvbad", 1), ["refuse"], mode))
         cases.append(Case(conv_case(rng, [], 1, 2, 2, 1, 1, 3, 1, 1, mode), ("cvbad", 2), ["refuse"], mode))
         cases.append(Case(conv_case(rng, [], 1, 2, 2, 1, 1, 1, 0, 1, mode), ("cvbad", 3), ["refuse"], mode))
-        cases.append(Case(["new a 2,2 1,2,3,4", "new f 1,1,1,1 1", "conv r a f 1 1"], ("cvbad", 4), ["refuse"], mode))
-        cases.append(Case(["new a 1,2,2 1,2,3,4", "new f 1,1 1", "conv r a f 1 1"], ("cvbad", 5), ["refuse"], mode))
+        cases.append(Case(["new a 2,2 %s" % vals_s([1, 2, 3, 4], mode), "new f 1,1,1,1 %s" % vals_s([1], mode), "conv r a f 1 1"], ("cvbad", 4), ["refuse"], mode))
+        cases.append(Case(["new a 1,2,2 %s" % vals_s([1, 2, 3, 4], mode), "new f 1,1 %s" % vals_s([1], mode), "conv r a f 1 1"], ("cvbad", 5), ["refuse"], mode))
     return cases
 
 
@@ -467,7 +467,8 @@ def fam_reduce(rng, n, tier, mode="exact", grads=False):
         cases.append(Case(L, ("reshape", tuple(s), mode, grads), ["reshape"], mode))
         # element maps
         maps = MAPS_EXACT if mode == "exact" else MAPS_FLOAT
-        L = ["new a %s %s" % (dims_s(s), vals_s(gen_vals(rng, cnt, mode, kind), mode))]
+        # x = 0 with an exponent below 1 is outside powf's differentiable domain (0 * 0^(e-1))
+        L = ["new a %s %s" % (dims_s(s), vals_s(gen_vals(rng, cnt, mode, "nonzero" if (grads and mode == "exact") else kind), mode))]
         if grads:
             L.append("tracked a")
         steps = [(m, "%s m_%s a" % (m, m)) for m in maps]
@@ -492,3 +493,538 @@ FAMILIES = {
     "conv": fam_conv,
     "reduce": fam_reduce,
 }
+
+
+# ---------------------------------------------------------------- random programs (dag / history)
+
+class Prog:
+    """A random program builder that tracks the shape and the tracked flag of every live name, so
+    that most commands are valid; values stay small so that the exact channel stays exact."""
+
+    def __init__(self, rng, mode="exact", maxsize=3, maxrank=3):
+        self.rng = rng
+        self.mode = mode
+        self.L = []
+        self.shape = {}      # name -> dims
+        self.tr = {}         # name -> tracked flag (as the program text implies)
+        self.leaf = set()
+        self.inter = set()
+        self.counter = 0
+        self.maxsize = maxsize
+        self.maxrank = maxrank
+        self.ops_used = []
+        self.tainted = set()  # names whose buffer is shared with a gradient cell (ownership not modelled by value)
+        self.topology = []   # (op, arg ids) for distinctness
+        self.maxfan = {}
+
+    def fresh(self, p="v"):
+        self.counter += 1
+        return "%s%d" % (p, self.counter)
+
+    def emit(self, line):
+        self.L.append(line)
+
+    def new_leaf(self, dims=None, tracked=None, kind="any", name=None):
+        rng = self.rng
+        if dims is None:
+            dims = rand_shape(rng, self.maxrank, self.maxsize)
+        n = name or self.fresh("l")
+        self.emit("new %s %s %s" % (n, dims_s(dims), vals_s(gen_vals(rng, prod(dims), self.mode, kind), self.mode)))
+        self.shape[n] = list(dims)
+        self.tr[n] = False
+        self.leaf.add(n)
+        if tracked is None:
+            tracked = rng.random() < 0.75
+        if tracked:
+            self.emit("tracked %s" % n)
+            self.tr[n] = True
+        return n
+
+    def names(self):
+        return sorted(self.shape)
+
+    def pick(self, pred=None):
+        c = [n for n in self.names() if pred is None or pred(n)]
+        return self.rng.choice(c) if c else None
+
+    def pick_compat(self, a):
+        """a name broadcast-compatible with `a` (prefers reuse, creates a leaf otherwise)"""
+        rng = self.rng
+        c = [n for n in self.names() if compat(self.shape[a], self.shape[n]) is not None]
+        if c and rng.random() < 0.8:
+            return rng.choice(c)
+        s = self.shape[a]
+        t = [1 if rng.random() < 0.3 else d for d in s]
+        t = t[rng.randint(0, len(t) - 1) if rng.random() < 0.4 else 0:]
+        return self.new_leaf(t)
+
+    def note(self, op, res, args):
+        self.ops_used.append(op)
+        self.topology.append((op, tuple(args)))
+        for a in args:
+            self.maxfan[a] = self.maxfan.get(a, 0) + 1
+        self.inter.add(res)
+
+    def op_binary(self, op=None, a=None, b=None, res=None):
+        rng = self.rng
+        a = a or self.pick()
+        b = b or (a if rng.random() < 0.15 else self.pick_compat(a))
+        exact_div = self.mode == "exact"
+        ops = ["add", "sub", "mul"] + ([] if exact_div else ["div"])
+        op = op or rng.choice(ops)
+        if op == "div":
+            # keep the float channel in-domain: divide by a fresh array bounded away from zero
+            b = self.new_leaf(self.shape[b], kind="pos")
+        r = res or self.fresh()
+        self.emit("%s %s %s %s" % (op, r, a, b))
+        self.shape[r] = compat(self.shape[a], self.shape[b])
+        self.tr[r] = self.tr[a] or self.tr[b]
+        self.leaf.discard(r)
+        self.note(op, r, [a, b])
+        return r
+
+    def op_unary(self, a=None, res=None):
+        rng = self.rng
+        a = a or self.pick()
+        s = self.shape[a]
+        choices = ["neg", "scale", "relu", "sum", "reshape", "powf"]
+        if self.mode != "exact":
+            choices += ["sigmoid", "exp", "softmax"]
+        op = rng.choice(choices)
+        r = res or self.fresh()
+        if op == "scale":
+            self.emit("scale %s %s %s" % (r, a, sc(rng.choice([2, -1, 3, Fraction(1, 2)]) if self.mode == "exact" else rng.uniform(-2, 2), self.mode)))
+            self.shape[r] = list(s)
+        elif op == "powf":
+            self.emit("powf %s %s %s" % (r, a, sc(rng.choice([1, 2]) if self.mode == "exact" else 2.0, self.mode)))
+            self.shape[r] = list(s)
+        elif op == "sum":
+            k = rng.randint(0, len(s))
+            self.emit("sum %s %s %d" % (r, a, k))
+            self.shape[r] = list(s) if k == 0 else s[:len(s) - k] + [1]
+            if k == 0 and a in self.tainted:
+                self.tainted.add(r)
+        elif op == "reshape":
+            cnt = prod(s)
+            ds = [d for d in range(1, cnt + 1) if cnt % d == 0]
+            d = rng.choice(ds)
+            t = [d, cnt // d] if rng.random() < 0.7 else [cnt]
+            self.emit("reshape %s %s %s" % (r, a, dims_s(t)))
+            self.shape[r] = t
+            if a in self.tainted:
+                self.tainted.add(r)
+        else:
+            self.emit("%s %s %s" % (op, r, a))
+            self.shape[r] = list(s)
+        self.tr[r] = self.tr[a]
+        self.leaf.discard(r)
+        self.note(op, r, [a])
+        return r
+
+    def op_matmul(self, res=None):
+        rng = self.rng
+        a = self.pick(lambda n: len(self.shape[n]) >= 2)
+        if a is None:
+            return None
+        s = self.shape[a]
+        ta = rng.random() < 0.3
+        m, k = (s[-1], s[-2]) if ta else (s[-2], s[-1])
+        tb = rng.random() < 0.4
+        n = rng.randint(1, self.maxsize)
+        b = self.new_leaf([n, k] if tb else [k, n])
+        c = "-"
+        args = [a, b]
+        if rng.random() < 0.5:
+            c = self.new_leaf(rng.choice([[n], [1, n], [m, n], [1]]))
+            args.append(c)
+        r = res or self.fresh()
+        self.emit("matmul %s %s %s %s %s %s" % (r, a, "T" if ta else "N", b, "T" if tb else "N", c))
+        self.shape[r] = s[:-2] + [m, n]
+        self.tr[r] = any(self.tr[x] for x in args)
+        self.leaf.discard(r)
+        self.note("matmul", r, args)
+        return r
+
+    def op_cop(self, kind=None, res=None, args=None):
+        rng = self.rng
+        kind = rng.choice([0, 1, 2, 3]) if kind is None else kind
+        if args is None:
+            a = self.pick()
+            same = [n for n in self.names() if self.shape[n] == self.shape[a]]
+            ar = {0: rng.randint(1, 3), 1: 2, 2: 1, 3: 3}[kind]
+            args = [a] + [rng.choice(same) for _ in range(ar - 1)]
+        r = res or self.fresh("c")
+        self.emit("cop %d %s %s" % (kind, r, ",".join(args)))
+        self.shape[r] = list(self.shape[args[0]])
+        self.tr[r] = True
+        self.leaf.discard(r)
+        self.note("cop%d" % kind, r, args)
+        return r
+
+    def random_op(self, weights=None):
+        rng = self.rng
+        x = rng.random()
+        if x < 0.5:
+            return self.op_binary()
+        if x < 0.8:
+            return self.op_unary()
+        if x < 0.9:
+            return self.op_matmul() or self.op_binary()
+        return self.op_cop()
+
+    def seed_for(self, v):
+        s = self.fresh("s")
+        self.emit("new %s %s %s" % (s, dims_s(self.shape[v]), vals_s(gen_vals(self.rng, prod(self.shape[v]), self.mode), self.mode)))
+        self.shape[s] = list(self.shape[v])
+        self.tr[s] = False
+        self.leaf.add(s)
+        return s
+
+    def backward(self, v, seeded=None):
+        rng = self.rng
+        if seeded is None:
+            seeded = rng.random() < 0.6
+        if seeded:
+            s = self.seed_for(v)
+            self.emit("backward %s %s" % (v, s))
+        else:
+            self.emit("backward %s -" % v)
+
+    def read_all(self, probes=True):
+        for n in self.names():
+            self.emit("grad %s" % n)
+            if probes and n not in self.tainted:
+                self.emit("probe %s" % n)
+
+    def drop(self, n):
+        self.emit("drop %s" % n)
+        self.shape.pop(n)
+        self.tr.pop(n)
+        self.leaf.discard(n)
+        self.inter.discard(n)
+
+
+def dag_key(p):
+    return (tuple(p.topology), tuple(sorted((n, tuple(s)) for n, s in p.shape.items())), tuple(sorted(p.tr.items())))
+
+
+def fam_dag(rng, n, tier, mode="exact"):
+    """random expression DAGs, one pass, gradients of everything read back"""
+    cases = []
+    for i in range(n):
+        p = Prog(rng, mode)
+        for _ in range(rng.randint(1, 4)):
+            p.new_leaf()
+        last = None
+        for _ in range(rng.randint(2, 14 if tier == "quick" else 22)):
+            last = p.random_op()
+            if rng.random() < 0.08 and last in p.shape:
+                # data-dependent control flow
+                p.emit("ifgt %s %s 1" % (last, sc(0, mode)))
+                p.emit("scale %s %s %s" % (last, last, sc(2, mode)))
+        roots = [x for x in p.names() if x in p.inter] or p.names()
+        r = rng.choice(roots[-3:])
+        p.backward(r)
+        p.read_all()
+        p.emit("snapshot")
+        fan = max(p.maxfan.values()) if p.maxfan else 0
+        cases.append(Case(p.L, ("dag", dag_key(p)), ["ops%d" % (len(p.topology) // 5 * 5), "fan%d" % min(fan, 4)] + sorted(set(p.ops_used)),
+                          mode, nontrivial=(fan >= 2 and any(p.tr.values()))))
+    # self-product chains: exponentially many paths, linear work
+    for depth in ([5, 20, 45] if tier == "quick" else [3, 10, 30, 45, 60]):
+        L = ["new x 2 %s" % vals_s([1, -1], mode), "tracked x", "clone y x"]
+        for d in range(depth):
+            L.append("cop 1 y y,y")
+        L += ["backward y -", "grad x", "probe x", "log"]
+        cases.append(Case(L, ("chain", depth), ["chain"], mode if mode == "exact" else mode))
+    return cases
+
+
+def fam_customlog(rng, n, tier, mode="exact"):
+    """programs made of `Array::op` nodes with logging closures: invocation counts and received deltas"""
+    cases = []
+    # exhaustive small DAG shapes: each new node picks its operands among earlier ones
+    maxn = 3 if tier == "quick" else 4
+    for nn in range(1, maxn + 1):
+        choices = []
+        for i in range(nn):
+            opts = [(0, (a, b)) for a in range(-1, i) for b in range(-1, i)] + [(2, (a,)) for a in range(-1, i)]
+            choices.append(opts)
+        allc = list(itertools.product(*choices))
+        if len(allc) > 600:
+            allc = rng.sample(allc, 600)
+        for combo in allc:
+            for flags in ([(True, True)] if tier == "quick" else [(True, True), (True, False)]):
+                L = ["new l0 2 1,2", "new l1 2 3,-1"]
+                if flags[0]:
+                    L.append("tracked l0")
+                if flags[1]:
+                    L.append("tracked l1")
+                names = []
+                for i, (kind, args) in enumerate(combo):
+                    an = [("l0" if (a == -1 and j % 2 == 0) else "l1") if a == -1 else names[a] for j, a in enumerate(args)]
+                    nm = "c%d" % i
+                    L.append("cop %d %s %s" % (kind, nm, ",".join(an)))
+                    names.append(nm)
+                L += ["backward %s -" % names[-1], "log", "grad l0", "grad l1"]
+                for nm in names:
+                    L.append("probe %s" % nm)
+                cases.append(Case(L, ("cl", combo, flags), ["exhaustive", "n%d" % nn], mode,
+                                  nontrivial=(nn >= 2)))
+    for _ in range(n):
+        p = Prog(rng, mode, maxsize=2, maxrank=2)
+        s = rand_shape(rng, 2, 2)
+        for _ in range(rng.randint(1, 3)):
+            p.new_leaf(s)
+        for _ in range(rng.randint(2, 30 if tier == "quick" else 40)):
+            p.op_cop()
+        r = p.pick(lambda x: x in p.inter)
+        p.backward(r)
+        p.emit("log")
+        p.read_all()
+        cases.append(Case(p.L, ("clr", dag_key(p)), ["random", "ops%d" % (len(p.topology) // 10 * 10)], mode))
+    return cases
+
+
+def fam_history(rng, n, tier, mode="exact", metamorphic=False):
+    """graph construction interleaved with passes on any live node, gradient reads / clears / sets,
+    clones, drops, re-binding; `snapshot` and probes after every pass"""
+    cases = []
+    for i in range(n):
+        p = Prog(rng, mode)
+        for _ in range(rng.randint(2, 4)):
+            p.new_leaf()
+        steps = rng.randint(8, 30 if tier == "quick" else 45)
+        passes = 0
+        for _ in range(steps):
+            x = rng.random()
+            if x < 0.45:
+                p.random_op()
+            elif x < 0.62 and p.inter:
+                v = rng.choice(sorted(p.inter & set(p.shape)) or p.names())
+                p.backward(v)
+                passes += 1
+                p.read_all()
+                p.emit("snapshot")
+            elif x < 0.68:
+                v = p.pick()
+                p.emit("cleargrad %s" % v)
+            elif x < 0.72:
+                v = p.pick()
+                w = p.fresh("g")
+                p.emit("new %s %s %s" % (w, dims_s(p.shape[v]), vals_s(gen_vals(rng, prod(p.shape[v]), mode), mode)))
+                p.shape[w] = list(p.shape[v]); p.tr[w] = False; p.leaf.add(w)
+                p.emit("setgrad %s %s" % (v, w))
+            elif x < 0.80:
+                v = p.pick()
+                w = p.fresh("k")
+                p.emit("clone %s %s" % (w, v))
+                p.shape[w] = list(p.shape[v]); p.tr[w] = p.tr[v]
+                if v in p.tainted:
+                    p.tainted.add(w)
+                if v in p.leaf:
+                    p.leaf.add(w)
+                if v in p.inter:
+                    p.inter.add(w)
+            elif x < 0.86 and len(p.shape) > 3:
+                p.drop(p.pick())
+            elif x < 0.90:
+                v = p.pick()
+                op = rng.choice(["start", "stop"])
+                p.emit("%s %s" % (op, v))
+                p.tr[v] = (op == "start")
+            elif x < 0.93:
+                v = p.pick()
+                op = rng.choice(["tracked", "untracked"])
+                p.emit("%s %s" % (op, v))
+                p.tr[v] = (op == "tracked")
+            elif x < 0.96 and p.inter:
+                # re-bind a variable to a new result (c = &c + &x)
+                v = rng.choice(sorted(p.inter & set(p.shape)) or p.names())
+                b = p.pick_compat(v)
+                if compat(p.shape[v], p.shape[b]) == p.shape[v] or True:
+                    p.op_binary(op=rng.choice(["add", "mul"]), a=v, b=b, res=v)
+            else:
+                v = p.pick()
+                w = p.fresh("t")
+                p.emit("takegrad %s %s" % (w, v))
+                # may panic (no gradient): the case then ends on both sides
+                p.shape[w] = list(p.shape[v]); p.tr[w] = False; p.leaf.add(w)
+                p.tainted.add(w)
+        p.emit("snapshot")
+        for v in p.names():
+            if v not in p.tainted:
+                p.emit("probe %s" % v)
+        cases.append(Case(p.L, ("hist", i, dag_key(p)), ["passes%d" % min(passes, 4)] + sorted(set(p.ops_used))[:6], mode,
+                          nontrivial=(passes >= 1)))
+    return cases
+
+
+def fam_release(rng, n, tier, mode="exact"):
+    """C18: build, differentiate, drop every derived result, then every leaf must own its buffer"""
+    cases = []
+    for i in range(n):
+        p = Prog(rng, mode)
+        leaves = [p.new_leaf() for _ in range(rng.randint(1, 3))]
+        for _ in range(rng.randint(1, 12)):
+            x = rng.random()
+            if x < 0.85:
+                p.random_op()
+            elif p.inter:
+                p.backward(rng.choice(sorted(p.inter & set(p.shape))))
+        if rng.random() < 0.7 and p.inter:
+            p.backward(rng.choice(sorted(p.inter & set(p.shape))))
+        # leaves created along the way by the generator are leaves as well
+        derived = [x for x in p.names() if x not in p.leaf]
+        rng.shuffle(derived)
+        for v in derived:
+            p.emit("probe %s" % v)
+            p.drop(v)
+        for v in sorted(p.leaf & set(p.shape)):
+            p.emit("probe %s" % v)
+        for v in sorted(p.leaf & set(p.shape)):
+            p.emit("grad %s" % v)
+            p.emit("own %s" % v)
+        cases.append(Case(p.L, ("rel", i, dag_key(p)), ["release"] + sorted(set(p.ops_used))[:5], mode))
+    return cases
+
+
+def fam_optim(rng, n, tier, mode="exact"):
+    """C13: parameter lists of random shapes, every frozen subset (small lists), repeated updates"""
+    cases = []
+    combos = []
+    for k in range(1, 5):
+        for mask in itertools.product([0, 1], repeat=k):
+            combos.append((k, mask))
+    for _ in range(n):
+        combos.append((rng.randint(1, 6), None))
+    for (k, mask) in combos:
+        L = []
+        shapes = [rand_shape(rng, 3, 3) for _ in range(k)]
+        mask = mask or tuple(rng.randint(0, 1) for _ in range(k))
+        names = ["p%d" % i for i in range(k)]
+        for nm, s in zip(names, shapes):
+            L.append("new %s %s %s" % (nm, dims_s(s), vals_s(gen_vals(rng, prod(s), mode), mode)))
+            L.append("tracked %s" % nm)
+        for rep in range(rng.randint(1, 3)):
+            for nm, s, m in zip(names, shapes, mask):
+                if m or (rep > 0 and rng.random() < 0.5):
+                    g = "g_%s_%d" % (nm, rep)
+                    L.append("new %s %s %s" % (g, dims_s(s), vals_s(gen_vals(rng, prod(s), mode), mode)))
+                    L.append("setgrad %s %s" % (nm, g))
+            L.append("clone old %s" % names[0])
+            lr = rng.choice([1, 2, Fraction(1, 2), Fraction(1, 4), -1]) if mode == "exact" else rng.uniform(0.001, 1.0)
+            L.append("gdupdate %s %s" % (sc(lr, mode), ",".join(names)))
+            L.append("show old")
+            L.append("snapshot")
+            for nm in names:
+                L.append("probe %s" % nm)
+        cases.append(Case(L, ("opt", k, mask, tuple(map(tuple, shapes))), ["k%d" % k, "frozen%d" % (k - sum(mask))], mode,
+                          nontrivial=(k >= 2 and 0 < sum(mask))))
+    # gradients that come from real passes
+    for _ in range(n // 2):
+        p = Prog(rng, mode)
+        params = [p.new_leaf(tracked=True) for _ in range(rng.randint(1, 4))]
+        for _ in range(rng.randint(1, 8)):
+            p.random_op()
+        if p.inter:
+            p.backward(rng.choice(sorted(p.inter & set(p.shape))))
+        lr = rng.choice([1, 2, Fraction(1, 2)]) if mode == "exact" else rng.uniform(0.001, 1.0)
+        p.emit("gdupdate %s %s" % (sc(lr, mode), ",".join(params)))
+        p.emit("snapshot")
+        cases.append(Case(p.L, ("optp", dag_key(p)), ["frompass"], mode))
+    return cases
+
+
+ACTS_EXACT = ["none", "relu"]
+ACTS_FLOAT = ["none", "relu", "sigmoid", "softmax"]
+
+
+def fam_train(rng, n, tier, mode="exact", forward_only=False):
+    """C14 / C15 / C18: stacks of dense / conv layers, both costs, batches, several iterations"""
+    cases = []
+    for i in range(n):
+        L = []
+        kind = rng.choice(["dense", "dense", "conv"])
+        acts = ACTS_EXACT if mode == "exact" else ACTS_FLOAT
+        layers = []
+        tags = [kind]
+        if kind == "dense":
+            nl = rng.randint(1, 3)
+            sizes = [rng.randint(1, 3) for _ in range(nl + 1)]
+            if mode == "exact":
+                sizes[-1] = rng.choice([1, 2, 4])
+            for j in range(nl):
+                act = rng.choice(acts) if j < nl - 1 or mode != "exact" else rng.choice(acts)
+                if act == "softmax" and sizes[j + 1] == 1:
+                    act = "sigmoid"
+                w = gen_vals(rng, sizes[j] * sizes[j + 1], mode) if mode == "exact" else floats(rng, sizes[j] * sizes[j + 1], -1, 1)
+                b = gen_vals(rng, sizes[j + 1], mode) if mode == "exact" else floats(rng, sizes[j + 1], -1, 1)
+                if mode == "exact":
+                    w = [max(-2, min(2, v)) for v in w]
+                L.append("dense L%d %d %d %s %s %s" % (j, sizes[j], sizes[j + 1], act, vals_s(w, mode), vals_s(b, mode)))
+                layers.append("L%d" % j)
+                tags.append(act)
+            batch = rng.choice([None, 1, 2, 4]) if mode == "exact" else rng.choice([None, 1, 2, 3])
+            xdims = [sizes[0]] if batch is None else [batch, sizes[0]]
+            ydims = [1, sizes[-1]] if batch is None else [batch, sizes[-1]]
+        else:
+            depth = rng.randint(1, 2)
+            rows, cols = rng.randint(2, 4), rng.randint(2, 4)
+            count = rng.choice([1, 2])
+            fr, fc = rng.randint(1, min(rows, 2)), rng.randint(1, min(cols, 2))
+            sr, sc_ = rng.randint(1, 2), rng.randint(1, 2)
+            act = rng.choice([a for a in acts if a != "softmax"])
+            w = gen_vals(rng, count * depth * fr * fc, mode) if mode == "exact" else floats(rng, count * depth * fr * fc, -1, 1)
+            b = gen_vals(rng, count, mode) if mode == "exact" else floats(rng, count, -1, 1)
+            if mode == "exact":
+                w = [max(-2, min(2, v)) for v in w]
+            L.append("convl L0 %d %d %d %d %d %d %s %s %s" % (count, depth, fr, fc, sr, sc_, act, vals_s(w, mode), vals_s(b, mode)))
+            layers.append("L0")
+            tags.append(act)
+            orows, ocols = (rows - fr) // sr + 1, (cols - fc) // sc_ + 1
+            batch = rng.choice([None, 1, 2])
+            xdims = ([] if batch is None else [batch]) + [depth, rows, cols]
+            ydims = ([] if batch is None else [batch]) + [count, orows, ocols]
+        cost = "mse" if mode == "exact" else rng.choice(["mse", "xent"])
+        if cost == "xent" and tags[-1] not in ("sigmoid", "softmax"):
+            cost = "mse"
+        # the exact channel needs 1/len(output) to be dyadic
+        if mode == "exact" and (prod(ydims) & (prod(ydims) - 1)):
+            continue
+        lr = rng.choice([1, Fraction(1, 2), Fraction(1, 4)]) if mode == "exact" else rng.uniform(0.01, 0.5)
+        if forward_only:
+            L.append("new x %s %s" % (dims_s(xdims), vals_s(gen_vals(rng, prod(xdims), mode) if mode == "exact" else floats(rng, prod(xdims), -1, 1), mode)))
+            cur = "x"
+            for j, lay in enumerate(layers):
+                L.append("lfwd h%d %s %s" % (j, lay, cur))
+                cur = "h%d" % j
+            L.append("params L0")
+            cases.append(Case(L, ("fwd", i, tuple(L)), tags + ["forward"], mode))
+            continue
+        L.append("model M %s %s %s" % (cost, sc(lr, mode), ",".join(layers)))
+        iters = rng.randint(1, 3 if tier == "quick" else 5)
+        for it in range(iters):
+            xv = gen_vals(rng, prod(xdims), mode) if mode == "exact" else floats(rng, prod(xdims), -1, 1)
+            if mode == "exact":
+                xv = [max(-2, min(2, v)) for v in xv]
+            L.append("new x%d %s %s" % (it, dims_s(xdims), vals_s(xv, mode)))
+            yv = gen_vals(rng, prod(ydims), mode) if mode == "exact" else posfloats(rng, prod(ydims), 0.0, 1.0)
+            L.append("new y%d %s %s" % (it, dims_s(ydims), vals_s(yv, mode)))
+            L.append("fwd out%d M x%d" % (it, it))
+            L.append("bwd M y%d" % it)
+            L.append("params M")
+            L.append("update M")
+            L.append("params M")
+            if it > 0 and rng.random() < 0.5:
+                # everything of the previous iteration has been released
+                L.append("drop out%d" % (it - 1))
+                L.append("probe x%d" % (it - 1))
+                L.append("own x%d" % (it - 1))
+        cases.append(Case(L, ("train", i, tuple(L[:3])), tags + [cost, "it%d" % iters, "batch%s" % batch], mode,
+                          nontrivial=(iters >= 2)))
+    return cases
+
+
+FAMILIES.update({"dag": fam_dag, "customlog": fam_customlog, "history": fam_history, "release": fam_release,
+                 "optim": fam_optim, "train": fam_train})
